@@ -87,6 +87,8 @@ def run_parallel(total, seed, profile, length, build, mode, workers, use_monitor
 def relevant(div, spec):
     ch = div["channel"]
     det = div["detail"]
+    if "call" not in det and "msg" in det:      # treasury divergence
+        return "treasury" in spec.get("extra", [])
     if ch in ("outcome", "msgs"):
         call = det.get("call", {})
         var = monitors.variant(call.get("msg")) if call.get("entry") == "execute" else call.get("entry")
@@ -191,16 +193,28 @@ def check(pid, tier, seed):
     nh, length, workers = (spec.get("quick_histories", 120), 70, 4) if quick else (spec.get("thorough_histories", 6000), 160, 16)
     all_stats = Stats()
     divs, findings = [], []
-    for b in builds:
-        s, d, f = run_parallel(nh, seed, profile, length, b, "model", workers)
-        all_stats.merge(s)
-        divs += d
-        findings += f
-    # 5. implementation-led monitors (independent of the contract model)
-    for b in builds:
-        s2, _, f2 = run_parallel(max(nh // 2, 8), seed + 1, profile, length, b, "impl", workers)
-        all_stats.merge(s2)
-        findings += f2
+    if not spec.get("skip_staking"):
+        for b in builds:
+            s, d, f = run_parallel(nh, seed, profile, length, b, "model", workers)
+            all_stats.merge(s)
+            divs += d
+            findings += f
+        # 5. implementation-led monitors (independent of the contract model)
+        for b in builds:
+            s2, _, f2 = run_parallel(max(nh // 2, 8), seed + 1, profile, length, b, "impl", workers)
+            all_stats.merge(s2)
+            findings += f2
+    if "treasury" in spec.get("extra", []):
+        from vlib import treasury
+        ts, td, tf = treasury.run(150 if quick else 4000, seed, 60 if quick else 120)
+        all_stats.histories += ts["histories"]
+        all_stats.calls += ts["calls"]
+        all_stats.signatures |= {("treasury",) + x for x in ts["signatures"]}
+        for k, v in ts["outcomes"].items():
+            all_stats.by_outcome["treasury:" + k] = v
+        all_stats.samples = (ts["samples"][:1] + all_stats.samples)[:3]
+        divs += td
+        findings += tf
 
     mine = [f for f in findings if f["property"] == pid]
     rel_divs = [d for d in divs if relevant(d, spec)]
@@ -237,6 +251,8 @@ def check(pid, tier, seed):
     if rel_divs and not new:
         found = None
         for d in rel_divs[:5]:
+            if not d["events"] or "boot" not in d["events"][0] or "self" not in d["events"][0].get("boot", {}):
+                continue
             try:
                 fs = [f for f in replay_events(d["events"]) if f["property"] == pid and match_known(f, known) is None]
             except Exception as e:  # the replay itself may crash on a changed tree
